@@ -101,7 +101,7 @@ func TestC15(t *testing.T) {
 			"signature validity (valid, other chain id, signed over another fee, garbage), memo length, payer balance around the fee, amount around the balance (handler fails after "+
 			"authentication). Oracle: model predicate auth (known by construction) decides: auth ∧ covers fee ⇒ payer -declared fee and collector +declared fee exactly once whatever "+
 			"the message result; otherwise code != 0 and no balance changes. non-trivial = authenticated tx whose message fails, or fee below required, or multisig signer",
-		map[string]float64{"auth-pass-handler-fail": 0.3, "fee-below-required": 0.3, "multisig": 0.4, "bad-signature": 0.3, "duplicate-in-same-block": 0.5,
+		map[string]float64{"auth-pass-handler-fail": 0.18, "fee-below-required": 0.3, "multisig": 0.4, "bad-signature": 0.3, "duplicate-in-same-block": 0.5,
 			"fee-table-changed": 0.3, "required-fee-from-fee-table": 0.2, "fee-decided-by-non-first-table-entry": 0.08},
 		func(rt *rapid.T, c *harness.Case) {
 			w := chain.GenWorld(rt)
